@@ -5,6 +5,9 @@
 #include <fcntl.h>
 #include <limits.h>
 #include <stdio.h>
+#ifdef OVNI_VERIF
+#include <stdlib.h>
+#endif
 #include <string.h>
 #include <sys/mman.h>
 #include <sys/stat.h>
@@ -58,6 +61,31 @@ load_stream_fd(struct stream *stream, int fd)
 		err("stream %s is empty", stream->path);
 		return -1;
 	}
+
+#ifdef OVNI_VERIF
+	/* Verification hook: load the stream into an exact-size heap buffer so
+	 * that AddressSanitizer sees any access outside the stream data (mmap
+	 * rounds up to a zero-filled page). Only when OVNI_VERIF_HEAPBUF is set. */
+	if (getenv("OVNI_VERIF_HEAPBUF") != NULL) {
+		uint8_t *hbuf = malloc((size_t) st.st_size);
+		if (hbuf == NULL) {
+			err("malloc failed:");
+			return -1;
+		}
+		size_t done = 0;
+		while (done < (size_t) st.st_size) {
+			ssize_t n = pread(fd, hbuf + done, (size_t) st.st_size - done, (off_t) done);
+			if (n <= 0) {
+				err("pread failed:");
+				return -1;
+			}
+			done += (size_t) n;
+		}
+		stream->buf = hbuf;
+		stream->size = st.st_size;
+		return 0;
+	}
+#endif
 
 	int prot = PROT_READ | PROT_WRITE;
 	stream->buf = mmap(NULL, (size_t) st.st_size, prot, MAP_PRIVATE, fd, 0);
